@@ -272,6 +272,7 @@ type c14run struct {
 	t     *testing.T
 	res   *common.Result
 	srv   *proc
+	cfg   string
 	steps []obs // setup steps of the case being run (for the replay)
 }
 
@@ -281,7 +282,8 @@ func (k *c14run) check(o obs, want *cond, slug, variant string) {
 	if want != nil {
 		condName = want.name
 	}
-	k.res.Eval(strings.Join([]string{o.Transport, o.Rpc, condName, slug, variant}, "|"), true)
+	k.res.Eval(strings.Join([]string{k.cfg, o.Transport, o.Rpc, condName, slug, variant}, "|"), true)
+	k.res.Count("config:" + k.cfg)
 	k.res.Count("transport:" + o.Transport)
 	k.res.Count("rpc:" + o.Rpc)
 	k.res.Count("expect:" + condName)
@@ -311,6 +313,9 @@ func (k *c14run) check(o obs, want *cond, slug, variant string) {
 				obsd = "no error at all"
 			} else if o.Transport == "client" {
 				obsd = "an error that Is() " + o.Code
+				if o.Code == "unmatched" {
+					obsd = "an error that matches none of the client's exported error values"
+				}
 			}
 			k.res.Find(common.Finding{Kind: "violation", Property: "C14",
 				Signature: fmt.Sprintf("stack:code:%s:%s:%s", o.Transport, o.Rpc, slug),
@@ -322,6 +327,10 @@ func (k *c14run) check(o obs, want *cond, slug, variant string) {
 			Signature: fmt.Sprintf("stack:success-with-error:%s:%s", o.Transport, o.Rpc),
 			What:      fmt.Sprintf("%s over %s that must succeed (%s) carries error code %s", o.Rpc, o.Transport, slug, o.Code),
 			Replay:    replay})
+	}
+	if want == nil && slug == "grant" && !o.HasErr && !o.Flag {
+		k.res.Count("inconclusive:grant-refused")
+		k.res.Note("C14 %s %s %s: a request that must be granted came back without error but with a false flag: %+v", o.Transport, o.Rpc, variant, o)
 	}
 	if o.HasErr && o.Flag {
 		k.res.Find(common.Finding{Kind: "violation", Property: "C14",
@@ -354,21 +363,33 @@ func runC14(t *testing.T, res *common.Result, rng *common.Rng) {
 		"(Unlock of unknown name / wrong key; Lock past its wait timeout; Renew of unknown name / wrong key / hold without lease / released hold / expired lease; " +
 		"TryLock and Lock with another size on an existing lock; size 0 and -1) x triggering states (hold owned by the caller's session or by another one, lock held or free, name fresh or existing) " +
 		"x one seeded shape of wrong key per case (all shapes in the thorough tier, several rounds), plus a success and a busy refusal of every RPC on every transport; names and order are seeded. " +
-		"A case is (transport, RPC, required condition, state, variant); every case is non-trivial (it exercises a translation layer end to end)"
-	srv := startServer(t, srvCfg{rest: true})
+		"The thorough tier repeats the walk on a second server configuration (password, one shard, no clear on disconnect). A case is (server configuration, transport, RPC, required condition, state, variant); every case is non-trivial (it exercises a translation layer end to end)"
+	c14Server(t, res, rng.Fork(1), "default", nil, "")
+	if common.Thorough() {
+		// the same walk through a server with other tuning and a password on both listeners
+		c14Server(t, res, rng.Fork(2), "password+one-shard+no-clear", []string{"--password", c16Password, "--shards", "1", "--no_clear_on_disconnect"}, c16Password)
+	}
+}
+
+func c14Server(t *testing.T, res *common.Result, rng *common.Rng, cfgName string, extra []string, pw string) {
+	srv := startServer(t, srvCfg{rest: true, extra: extra})
 	if !srv.started {
 		t.Fatalf("server did not start: %v", srv.logTail(40))
 	}
 	defer srv.stop()
 
-	other := &grpcT{g: dialGrpc(t, srv.grpcAddr, nil)} // the "other session"
-	gT := &grpcT{g: dialGrpc(t, srv.grpcAddr, nil)}
+	md := func(ctx context.Context) context.Context { return withPw(ctx, pw) }
+	other := &grpcT{g: dialGrpc(t, srv.grpcAddr, nil), md: md} // the "other session"
+	gT := &grpcT{g: dialGrpc(t, srv.grpcAddr, nil), md: md}
 	rc := newRestClient(srv.restAddr, nil)
+	if pw != "" {
+		rc.auth = sp(basic("user:" + pw))
+	}
 	if r := rc.createSession(); r.Status != 201 {
 		t.Fatalf("cannot create a REST session: %+v", r)
 	}
 	rT := &restT{c: rc}
-	gc, err := client.New(context.Background(), client.Config{Address: srv.grpcAddr, NoAutoRenew: true})
+	gc, err := client.New(context.Background(), client.Config{Address: srv.grpcAddr, NoAutoRenew: true, Password: pw})
 	if err != nil {
 		t.Fatal(err)
 	}
@@ -376,10 +397,10 @@ func runC14(t *testing.T, res *common.Result, rng *common.Rng) {
 	cT := &clientT{c: gc}
 	transports := []transport{gT, rT, cT}
 
-	k := &c14run{t: t, res: res, srv: srv}
+	k := &c14run{t: t, res: res, srv: srv, cfg: cfgName}
 	rounds := 1
 	if common.Thorough() {
-		rounds = 6
+		rounds = 4
 	}
 
 	type kase struct {
